@@ -414,7 +414,7 @@ def rule_output_attached(A, R, rule):
                 R.ob(rule, "%s | %s | the output is not recorded on a path that reports the job as failed" % (fn, A.sname(s)), not bad,
                      detail="the write of history_output and the construction of %s lie on one path" % (bad[0]["variant"] if bad else ""),
                      site=A.site(v))
-            elif label.startswith("H|"):
+            elif label.startswith("H|") or label.startswith("HW|"):
                 # a handler may attach the *recorded* output when it skips the job
                 ws = [w for w in run.by_kind("write_state") if w["key"][0] == v["key"][0] and connected(A, w, v)]
                 tos = set()
